@@ -303,6 +303,7 @@ structure State where
   twakes : Tid → Nat := fun _ => 0              -- executor task wake counters
   -- handle bookkeeping (a handle is used by one call at a time; Rust ownership / the harness)
   hLive : Hid → Bool := fun h => h == 0         -- handle exists and has not been dropped
+  hUsed : Hid → Bool := fun h => h == 0         -- handle id was ever created (ids are never reused)
   sBusy : Hid → Option Tid := fun _ => none
   rLive : Bool := true
   rBusy : Option Tid := none
@@ -536,10 +537,7 @@ def wkOf (t : Tid) (x : Th) : Wk := if x.blockOn then .task t else .cnt x.curF
 
 /-- entry of a (re-)poll of the current future -/
 def pollEntry (x : Th) : Th :=
-  match x.op with
-  | .sendA _ _ => { x with pc := .cClosed, chk := .pollS }
-  | .recvA => { x with pc := .rClosed }
-  | _ => retWith x .none
+  if x.hb then { x with pc := .cClosed, chk := .pollS } else { x with pc := .rClosed }
 
 /-! One definition per program counter (`nx<Pc>`), dispatched by `next`. -/
 def nxIdle (c : Cfg) (s : State) (t : Tid) : Option (Act × State) :=
@@ -867,9 +865,9 @@ def nxBoPark (c : Cfg) (s : State) (t : Tid) : Option (Act × State) :=
 def nxCnAdd (c : Cfg) (s : State) (t : Tid) : Option (Act × State) :=
   let x := s.th t
   let W : State → Th → State := fun s' x' => { s' with th := upd s'.th t x' }
-  let h2 := match x.op with | .clone _ h2 => h2 | _ => 0
+  let h2 := x.h
   some ({ kind := .fadd, obj := .senderCount, ord := .relaxed, old := s.senderCount, new := s.senderCount + 1 },
-        W { s with senderCount := s.senderCount + 1, counted := h2 :: s.counted, hLive := upd s.hLive h2 true,
+        W { s with senderCount := s.senderCount + 1, counted := h2 :: s.counted, hLive := upd s.hLive h2 true, hUsed := upd s.hUsed h2 true,
                    sClosed := upd s.sClosed h2 false,
                    resurrect := s.resurrect || (s.senderCount == 0) } (retWith x .ok))
 
@@ -1503,7 +1501,8 @@ def isSendOp : Op → Bool
 
 /-- sender handle used (and kept busy) by an op -/
 def opHandle (s : State) : Op → Option Hid
-  | .send h _ | .trySend h _ | .sendA h _ | .clone h _ | .closeS h | .dropS h | .isClosedS h => some h
+  | .send h _ | .trySend h _ | .sendA h _ | .closeS h | .dropS h | .isClosedS h => some h
+  | .clone _ h2 => some h2        -- the NEW handle's name is reserved for the duration of the call
   | .poll f => if (s.fut f).kind = .send then some (s.fut f).h else none
   | _ => none
 
@@ -1515,12 +1514,14 @@ def opRecv (s : State) : Op → Bool
 
 /-- harness/ownership guard of a call -/
 def callOk (s : State) (op : Op) : Bool :=
-  (match opHandle s op with
-   | some h => s.hLive h && (s.sBusy h).isNone
-   | none => true) &&
+  (match op with
+   | .clone h h2 => s.hLive h && !s.hUsed h2 && (s.sBusy h2).isNone
+   | _ =>
+     match opHandle s op with
+     | some h => s.hLive h && (s.sBusy h).isNone
+     | none => true) &&
   (if opRecv s op then s.rLive && s.rBusy.isNone else true) &&
   (match op with
-   | .clone _ h2 => !s.hLive h2
    | .futSend f h _ => (s.fut f).kind = .absent && s.hLive h
    | .futRecv f => (s.fut f).kind = .absent && s.rLive
    | .poll f => (s.fut f).kind ≠ .absent
@@ -1553,7 +1554,7 @@ def callTh (c : Cfg) (s : State) (x : Th) (x0 : Th) (op : Op) : Th :=
   | .tryRecv => { x0 with pc := .rClosed }
   | .recvT0 => { x0 with pc := .rClosed }
   | .recvA => { x0 with pc := .rClosed, reg := false, blockOn := true }
-  | .clone h _ => { x0 with pc := .cnAdd, h := h }
+  | .clone _ h2 => { x0 with pc := .cnAdd, h := h2 }
   | .closeS h => { x0 with pc := .clCas, h := h }
   | .dropS h => { x0 with pc := .clCas, h := h }
   | .closeR => { x0 with pc := .rcCas }
@@ -1595,6 +1596,12 @@ def stepCall (c : Cfg) (s : State) (t : Tid) : Option (Act × State) :=
     else none
   | _, _ => none
 
+/-- `drop h` consumes the handle -/
+def retHLive (x : Th) (hl : Hid → Bool) : Hid → Bool :=
+  match x.op with
+  | .dropS _ => if x.hb then upd hl x.h false else hl
+  | _ => hl
+
 def stepRet (s : State) (t : Tid) : Option (Act × State) :=
   let x := s.th t
   match x.pc with
@@ -1605,7 +1612,7 @@ def stepRet (s : State) (t : Tid) : Option (Act × State) :=
                rBusy := if x.rb then none else s.rBusy,
                acked := if (isSendOp x.op || (match x.op with | .poll f => (s.fut f).kind = .send | _ => false)) && x.res = .ok
                         then upd s.acked t (s.acked t + 1) else s.acked,
-               hLive := (match x.op with | .dropS h => upd s.hLive h false | _ => s.hLive),
+               hLive := retHLive x s.hLive,
                rLive := (match x.op with | .dropR => false | _ => s.rLive),
                fut := (match x.op with
                        | .poll f =>
